@@ -1199,6 +1199,11 @@ class Run:
                 elif only:
                     ks = [k for k in range(n)
                           if first.mut_log[k][1] in only]
+                if only and cap is not None and len(ks) > cap:
+                    # (the cap also holds for filtered fault points)
+                    stride = len(ks) / float(cap)
+                    ks = sorted(set(ks[int(j * stride)]
+                                    for j in range(cap)) | {ks[-1]})
                 errnos = sc.get('errnos', ['ENOSPC'])
                 rot = sc.get('seed', 0)
                 plan = [{'kind': 'oserror', 'index': k,
